@@ -99,7 +99,7 @@ fn announcement_packet(service: &str, inst: &Value, ttl: u32) -> Result<Vec<u8>,
 /// the bytes a peer puts on the wire for one announcement of a generated history
 fn announcement_bytes(ann: &Value, service: &str) -> Result<Vec<u8>, String> {
     Ok(match ann["kind"].as_str().unwrap() {
-        "instance" => announcement_packet(service, &ann["inst"], 120)?,
+        "instance" | "goodbye-then-instance" | "flush-then-instance" => announcement_packet(service, &ann["inst"], 120)?,
         "instance+foreign" => {
             // a third-party encoder: the peer's records in the answer section, records of foreign
             // names in the additional section of the same packet
@@ -159,6 +159,27 @@ fn discover_once(c: &Value, asynchronous: bool, rt: &tokio::runtime::Runtime) ->
         let mut achan = Some(atx);
         for (i, ann) in c["anns"].as_array().unwrap().iter().enumerate() {
             let service = name_text(&ann["service"]);
+            // a goodbye (TTL 0, or the records with the cache-flush bit) that precedes the announcement proper
+            let kind = ann["kind"].as_str().unwrap_or("");
+            if kind == "goodbye-then-instance" || kind == "flush-then-instance" {
+                let first = if kind == "goodbye-then-instance" {
+                    announcement_packet(&service, &ann["inst"], 0)?
+                } else {
+                    let plain = announcement_packet(&service, &ann["inst"], 120)?;
+                    let src = Packet::parse(&plain).map_err(|e| e.to_string())?;
+                    let mut p = Packet::new_reply(1);
+                    for r in src.answers.iter() {
+                        p.answers.push(r.to_cache_flush_record());
+                    }
+                    p.build_bytes_vec_compressed().map_err(|e| e.to_string())?
+                };
+                let packet = Packet::parse(&first).map_err(|e| format!("own goodbye does not parse: {e}"))?;
+                if asynchronous {
+                    rt.block_on(simple_mdns::verif::add_response_to_resources_async(packet, &service_name, &own_full, &mut store, &mut None));
+                } else {
+                    add_response_to_resources(packet, &service_name, &own_full, &mut store, &mut None);
+                }
+            }
             let bytes = announcement_bytes(ann, &service)?;
             let packet = Packet::parse(&bytes).map_err(|e| format!("own announcement does not parse: {e}"))?;
             // alternate between the two ingest paths (with and without the on_discovery channel)
@@ -218,6 +239,10 @@ struct Node {
     store: Arc<RwLock<ResourceRecordManager<'static>>>,
     service: Name<'static>,
     full: Name<'static>,
+    // the application's on_discovery channels as the listener holds them (None once a send failed); the
+    // "-closed" roles start with the receiving ends already dropped by the application
+    chan: Arc<std::sync::Mutex<Option<std::sync::mpsc::Sender<InstanceInformation>>>>,
+    achan: Arc<std::sync::Mutex<Option<tokio::sync::mpsc::Sender<InstanceInformation>>>>,
 }
 
 fn new_node() -> Node {
@@ -229,7 +254,10 @@ fn new_node() -> Node {
     for r in info.into_records(&full, 120).unwrap() {
         store.add_authoritative_resource(r);
     }
-    Node { store: Arc::new(RwLock::new(store)), service, full }
+    // receivers dropped at once: the application lost interest in notifications
+    let (tx, _) = std::sync::mpsc::channel();
+    let (atx, _) = tokio::sync::mpsc::channel(4);
+    Node { store: Arc::new(RwLock::new(store)), service, full, chan: Arc::new(std::sync::Mutex::new(Some(tx))), achan: Arc::new(std::sync::Mutex::new(Some(atx))) }
 }
 
 thread_local! {
@@ -291,7 +319,29 @@ fn handle(node: &Node, role: &str, d: &[u8]) -> Value {
             Ok(Ok(r)) => r,
             _ => break 'pipeline,
         };
-        if is_response && role == "discovery-async" {
+        if is_response && role == "discovery-closed" {
+            let store = node.store.clone();
+            let chan = node.chan.clone();
+            let (service, full) = (node.service.clone(), node.full.clone());
+            let r = guarded(move || {
+                let packet = Packet::parse(d).unwrap();
+                let mut guard = store.write().unwrap();
+                let mut c = chan.lock().unwrap_or_else(|e| e.into_inner());
+                add_response_to_resources(packet, &service, &full, &mut guard, &mut c);
+            });
+            steps.push(json!(["ingest-closed-channel", outcome_of(&r)]));
+        } else if is_response && role == "discovery-async-closed" {
+            let store = node.store.clone();
+            let chan = node.achan.clone();
+            let (service, full) = (node.service.clone(), node.full.clone());
+            let r = guarded(move || {
+                let packet = Packet::parse(d).unwrap();
+                let mut guard = store.write().unwrap();
+                let mut c = chan.lock().unwrap_or_else(|e| e.into_inner());
+                ASYNC_RT.with(|rt| rt.block_on(simple_mdns::verif::add_response_to_resources_async(packet, &service, &full, &mut guard, &mut c)));
+            });
+            steps.push(json!(["ingest-async-closed-channel", outcome_of(&r)]));
+        } else if is_response && role == "discovery-async" {
             let store = node.store.clone();
             let (service, full) = (node.service.clone(), node.full.clone());
             let r = guarded(move || {
@@ -438,9 +488,13 @@ pub fn run_datagram(a: &Args) {
         grams.push(("random".into(), b));
     }
     // sessions: hostile datagrams interleaved with valid traffic, against one node per role
-    for role in ["responder", "discovery", "discovery-async", "resolver"] {
+    for role in ["responder", "discovery", "discovery-async", "resolver", "discovery-closed", "discovery-async-closed"] {
         let node = new_node();
         for (i, (cls, d)) in grams.iter().enumerate() {
+            // the closed-channel listeners only differ on responses that carry records of the watched service
+            if role.ends_with("-closed") && !(cls.starts_with("valid") || cls.starts_with("hostile") || i % 10 == 0) {
+                continue;
+            }
             let mut e = handle(&node, role, d);
             e["ev"] = json!("Datagram");
             e["cls"] = json!(format!("{role} {cls}"));
